@@ -180,6 +180,14 @@ def r11_3(ctx, fx):
         ctx.ob("R11.3", "close_connection/reports-stream-closed-on-every-path", not bad, site=fn.site(fn.entry), cfg=fx.cfg)
         snd = [c for c in fn.calls(r"mpsc::(bounded::)?Sender(<.*>)?::send$") if "conn_closed_tx" in fn.origin(c.args[0])]
         ctx.anchor("R11.3", "close_connection: conn_closed_tx.send", len(snd), 1, cfg=fx.cfg)
+        # R11.14 the protocol learns about the close before the user does: the notice to NotificationProtocol is sent (awaited) before
+        # NotificationStreamClosed is reported to the user, so a user that reacts to the close at once (open_substream) finds the peer
+        # Closed - not still Open, where the request is silently ignored.  (next_event polls the notices before the commands.)
+        reps = [c for c in fn.calls(r"NotificationEventHandle::report_notification_stream_closed$")]
+        for c_ in snd:
+            late = [r_ for r_ in reps if c_.node in fn.reach([r_.node], after=True)]
+            ctx.ob("R11.14", "close_connection/protocol-is-told-before-the-user", bool(reps) and not late, site=fn.site(c_.node), cfg=fx.cfg,
+                   detail="user reports after which the notice to the protocol is still to be sent: %d" % len(late))
         sws = [sw for sw in fn.discr_switches() if sw[2] and sw[2].endswith("NotifyProtocol")]
         ctx.anchor("R11.3", "close_connection: test of notify_protocol", len(sws), 1, cfg=fx.cfg)
         for c in snd:
